@@ -368,17 +368,33 @@ Qed.
 Lemma ser_coder_length c : (1 <= List.length (ser_coder c))%nat.
 Proof. unfold ser_coder. destruct (c_props c); cbn [List.length]; lia. Qed.
 
-Definition ser_coders (cs : list coder) : bytes := enc_num (lenN cs) ++ flat_map ser_coder cs.
-Definition wf_coders (cs : list coder) : bool := (lenN cs =? 1) && forallb wf_coder cs.
+Definition ser_coders (cs : list coder) : bytes :=
+  enc_num (lenN cs) ++ flat_map ser_coder cs ++ enc_nums (bind_pairs cs).
+Definition wf_coders (cs : list coder) : bool := num_ok (lenN cs) && forallb wf_coder cs.
+
+Lemma bp_upto_spec k : k < 2 ^ 64 -> forall j, (j <= N.to_nat k)%nat ->
+  lenN (bp_upto j) = 2 * N.of_nat j /\ forallb num_ok (bp_upto j) = true.
+Proof.
+  intros Hk. induction j as [|j IH]; intro Hj; [split; reflexivity|].
+  destruct (IH ltac:(lia)) as [I1 I2]. cbn [bp_upto]. rewrite lenN_app, forallb_app, I1, I2. cbn [lenN forallb].
+  split; [lia|]. unfold num_ok.
+  assert (N.of_nat (S j) < 2 ^ 64) by lia. assert (N.of_nat j < 2 ^ 64) by lia.
+  destruct (N.ltb_spec (N.of_nat (S j)) (2 ^ 64)); [|lia]. destruct (N.ltb_spec (N.of_nat j) (2 ^ 64)); [|lia]. reflexivity.
+Qed.
 
 Lemma folder_rt cs rest fuel :
   wf_coders cs = true -> (List.length (ser_coders cs ++ rest) < fuel)%nat ->
   parse_folder fuel (ser_coders cs ++ rest) = POk cs rest.
 Proof.
-  unfold wf_coders, ser_coders. intros Hw HF. apply andb_true_iff in Hw as [H1 H2]. apply N.eqb_eq in H1.
-  unfold parse_folder. norm. rewrite r_number_enc by (rewrite H1; reflexivity). cbn [bind].
+  unfold wf_coders, ser_coders. intros Hw HF. apply andb_true_iff in Hw as [H1 H2].
+  assert (Hk : lenN cs < 2 ^ 64) by (unfold num_ok in H1; apply N.ltb_lt in H1; exact H1).
+  destruct (bp_upto_spec (lenN cs) Hk (List.length cs - 1)%nat ltac:(rewrite lenN_length, Nat2N.id; lia)) as [B1 B2].
+  unfold parse_folder. revert HF. norm. intro HF. rewrite (r_number_enc _ _ H1). cbn [bind].
   rewrite (rep_ser parse_coder ser_coder wf_coder fuel) ; try assumption.
-  - cbn [bind]. rewrite H1. change (2 * (1 - 1)) with 0. destruct fuel; reflexivity.
+  - cbn [bind].
+    replace (2 * (lenN cs - 1)) with (lenN (bind_pairs cs))
+      by (unfold bind_pairs; rewrite B1, lenN_length, Nat2N.inj_sub; reflexivity).
+    rewrite (rep_numbers (bind_pairs cs) rest fuel B2) by (clear - HF; fuel_tac). reflexivity.
   - intros a r Ha _. apply coder_rt. exact Ha.
   - apply ser_coder_length.
   - clear - HF. fuel_tac.
